@@ -160,15 +160,15 @@ Definition asm_covered : list (string * string) := [
   ("nzCountACSSE2", "C13_lane_nz_scan_eq");
   ("fTransformSSE2", "C13_lane32_fdct_eq"); ("fTransformAVX2", "C13_lane32_fdct_eq");
   ("fTransformNEON", "partial: 32-bit lanes, truncating narrow; not dispatched (benchmark export only), not modelled");
-  ("fTransformWHTSSE2", "C13_lane16_fwht_eq + C13_lane16_fwht_eq_on_encoder_input");
+  ("fTransformWHTSSE2", "C13_asm_fwht_is_lane16_fwht (derived from the instruction list) + C13_lane16_fwht_eq + C13_lane16_fwht_eq_on_encoder_input");
   ("fTransformWHTNEON", "scalar 64-bit registers: the portable arithmetic itself; not executable here");
-  ("transformWHTSSE2", "C13_lane16_wht_eq, refuted beyond |c|<=2047 (known finding)");
+  ("transformWHTSSE2", "C13_asm_iwht_is_lane16_wht (derived from the instruction list) + C13_lane16_wht_eq, refuted beyond |c|<=2047 (known finding)");
   ("transformWHTNEON", "scalar 64-bit registers: the portable arithmetic itself (so arm64 = portable, differs from amd64 beyond the box); not executable here");
-  ("iTransformOneSSE2", "C13_lane16_idct_eq(_fits), refuted beyond |c|<=2212 (known finding)");
-  ("iTransformOneAVX2", "C13_lane16_idct_eq(_fits), same lane model as SSE2");
+  ("iTransformOneSSE2", "C13_asm_idct_is_lane16_idct (derived from the instruction list) + C13_lane16_idct_eq(_fits), refuted beyond |c|<=2212 (known finding)");
+  ("iTransformOneAVX2", "C13_asm_idct_avx2_is_lane16_idct (derived from the instruction list, raw VEX encodings decoded) + C13_lane16_idct_eq(_fits)");
   ("iTransformOneNEON", "C13_idct32_eq (32-bit lanes), refuted beyond |c|<=15735: C13_idct_int_width_differs_refuted; not executable here");
   ("simpleVFilter16SSE2", "C13_lane16_simple_filter_eq"); ("simpleVFilter16AVX2", "C13_lane16_simple_filter_eq");
-  ("sse4x4SSE2", "C13_asm_sse4x4_eq_model (model derived from the instruction list) + C13_lane16_sse_eq"); ("sse16x16SSE2", "C13_lane16_sse_blocks_eq"); ("sse16x16AVX2", "C13_lane16_sse_blocks_eq");
+  ("sse4x4SSE2", "C13_asm_sse4x4_eq_model (model derived from the instruction list) + C13_lane16_sse_eq"); ("sse16x16SSE2", "C13_asm_sse16x16_eq_model (derived from the instruction list) + C13_lane16_sse_blocks_eq"); ("sse16x16AVX2", "C13_lane16_sse_blocks_eq");
   ("sse4x4NEON", "same lane model (16-bit diff, 32-bit squares): C13_lane16_sse_eq; not executable here");
   ("sse16x16NEON", "UABDL + UMULL: neon_abd_square + C13_lane16_sse_blocks_eq; not executable here");
   ("tDisto4x4SSE2", "C13_lane16_tdisto_eq"); ("tDisto4x4AVX2", "C13_lane16_tdisto_eq (two blocks per register)");
